@@ -1,8 +1,8 @@
 """Contracts for cincoconfig/core.py.  Labels carry the property ids they serve."""
 
 ADOPT = ["Config._parent@*", "Config._key@*", "Config._container@*"]     # links of Config objects adopted by a list/sub-config value
-KEYFILE_STATE = ["fs", "rand_ctr", "fresh", "ncalls", "Config._Config__keyfile@*", "KeyFile._KeyFile__key@*", "KeyFile._KeyFile__refcount@*"]
-UNCHANGED = "heap_unchanged('Config._parent', 'Config._key', 'Config._container', 'Config._Config__keyfile', 'KeyFile._KeyFile__key', 'KeyFile._KeyFile__refcount')"
+KEYFILE_STATE = ["fs", "rand_ctr", "fresh", "ncalls", "Config._Config__keyfile@*", "Config._Config__default_keyfile@*", "KeyFile._KeyFile__key@*", "KeyFile._KeyFile__refcount@*"]
+UNCHANGED = "heap_unchanged('Config._parent', 'Config._key', 'Config._container', 'Config._Config__keyfile', 'Config._Config__default_keyfile', 'KeyFile._KeyFile__key', 'KeyFile._KeyFile__refcount')"
 
 
 def adopt_frame(v):
@@ -43,7 +43,7 @@ def register(reg):
 
 def register_construction(reg):
     C = reg.contract
-    KEYFILE_STATE = ["fs", "rand_ctr", "fresh", "ncalls", "Config._Config__keyfile@*", "KeyFile._KeyFile__key@*", "KeyFile._KeyFile__refcount@*"]
+    KEYFILE_STATE = ["fs", "rand_ctr", "fresh", "ncalls", "Config._Config__keyfile@*", "Config._Config__default_keyfile@*", "KeyFile._KeyFile__key@*", "KeyFile._KeyFile__refcount@*"]
     C("core:Schema.__call__", params={"parent": "opt:ref:Config", "data": "ref:dict"}, returns="ref:Config",
       requires={"keywords-are-strings": 'forall("k:key", "implies(has(data, k), typeis(k, \'str\'))")'},
       assumes={"A.acyclic": 'forall("k:key", "implies(has(data, k), not inside(get(data, k), parent))")'},
@@ -67,7 +67,7 @@ def register_construction(reg):
       },
       raises={"C06+C13.existing-objects-untouched": "heap_unchanged()",
               "C15.construction-error-class": "exc_is(ValidationError)"})
-    FR = "heap_unchanged('Config._parent', 'Config._key', 'Config._container', 'Config._Config__keyfile', 'KeyFile._KeyFile__key', 'KeyFile._KeyFile__refcount', self._data, self._default_value_keys, self._fields)"
+    FR = "heap_unchanged('Config._parent', 'Config._key', 'Config._container', 'Config._Config__keyfile', 'Config._Config__default_keyfile', 'KeyFile._KeyFile__key', 'KeyFile._KeyFile__refcount', self._data, self._default_value_keys, self._fields)"
     LK = "self._parent is old(self._parent) and self._key == old(self._key) and self._container is old(self._container) and self._schema is old(self._schema)"
     C("core:Config.load_tree", params={"tree": "ref:dict", "validate": "any"},
       assumes={"A.tree-keys-are-strings": 'forall("k:key", "implies(has(tree, k), typeis(k, \'str\'))")',
@@ -106,7 +106,7 @@ def setvalue_clauses(key):
         "C01.stores-validated-result": "implies(persistent(fieldof(self, KEY)), dict_is_upd(self._data, KEY, result)"
                                        " and (result is None or accepts(fieldof(self, KEY), result)))",
         "C12.marks-user-defined": "set_is_discard(self._default_value_keys, KEY)",
-        "C01+C13.changes-nothing-else": "heap_unchanged('Config._parent', 'Config._key', 'Config._container', 'Config._Config__keyfile', 'KeyFile._KeyFile__key', 'KeyFile._KeyFile__refcount', self._data, self._default_value_keys, self._fields)",
+        "C01+C13.changes-nothing-else": "heap_unchanged('Config._parent', 'Config._key', 'Config._container', 'Config._Config__keyfile', 'Config._Config__default_keyfile', 'KeyFile._KeyFile__key', 'KeyFile._KeyFile__refcount', self._data, self._default_value_keys, self._fields)",
         "C03+C15.subconfig-linked": "implies(typeis(result, 'ref:Config') and not typeis(fieldof(self, KEY), 'ref:Field'),"
                                     " result._parent is self and result._key == KEY and dict_is_upd(self._data, KEY, result))",
     }
@@ -167,7 +167,7 @@ def register_field_base(reg):
       raises={"C13.read-only": "heap_unchanged()", "C12.only-callable-defaults-raise": "callable_v(self._default)"})
 
 
-KEYFILE_STATE = ["fs", "rand_ctr", "fresh", "ncalls", "Config._Config__keyfile@*", "KeyFile._KeyFile__key@*", "KeyFile._KeyFile__refcount@*"]
+KEYFILE_STATE = ["fs", "rand_ctr", "fresh", "ncalls", "Config._Config__keyfile@*", "Config._Config__default_keyfile@*", "KeyFile._KeyFile__key@*", "KeyFile._KeyFile__refcount@*"]
 
 
 def register_io(reg):
@@ -190,31 +190,31 @@ def register_io(reg):
           "C02+C10.nested-configuration-rendered-with-the-same-mask": 'forall("k:key", "implies(has(result, k) and typeis(fval(get(loc_fields, k), self, k), \'ref:Config\'), tree_rel(get(result, k), fval(get(loc_fields, k), self, k), virtual, sensitive_mask))")',
           "C10.sensitive-value-replaced-by-mask": 'forall("k:key", "implies(has(result, k) and not typeis(fval(get(loc_fields, k), self, k), \'ref:Config\') and typeis(get(loc_fields, k), \'ref:Field\') and get(loc_fields, k).sensitive and sensitive_mask is not None and implies(typeis(get(loc_fields, k), \'ref:VirtualFieldMixin\'), not typeis(fval(get(loc_fields, k), self, k), \'ref:object\')), get(result, k) == ite(not truthy(fval(get(loc_fields, k), self, k)), None, ite(len(sensitive_mask) == 1, sensitive_mask * len(str(fval(get(loc_fields, k), self, k))), sensitive_mask)))")',
           "C10.without-mask-field-encoding-unaltered": 'forall("k:key", "implies(has(result, k) and not typeis(fval(get(loc_fields, k), self, k), \'ref:Config\') and typeis(get(loc_fields, k), \'ref:Field\') and not (typeis(get(loc_fields, k), \'ref:Field\') and get(loc_fields, k).sensitive and sensitive_mask is not None) and sensitive_mask is None, basic_rel(get(loc_fields, k), self, fval(get(loc_fields, k), self, k), get(result, k)))")',
-          "C13.configuration-untouched": "heap_unchanged('Config._Config__keyfile', 'KeyFile._KeyFile__key', 'KeyFile._KeyFile__refcount')",
+          "C13.configuration-untouched": "heap_unchanged('Config._Config__keyfile', 'Config._Config__default_keyfile', 'KeyFile._KeyFile__key', 'KeyFile._KeyFile__refcount')",
       },
       raises={"C03+C19.only-key-files-touched": KF0,
-              "C13.configuration-untouched": "heap_unchanged('Config._Config__keyfile', 'KeyFile._KeyFile__key', 'KeyFile._KeyFile__refcount')"},
+              "C13.configuration-untouched": "heap_unchanged('Config._Config__keyfile', 'Config._Config__default_keyfile', 'KeyFile._KeyFile__key', 'KeyFile._KeyFile__refcount')"},
       invariants={0: {
           "locals": "typeis(tree, 'ref:dict') and fresh(tree) and typeis(fields, 'ref:dict') and fresh(fields) and N == len(fields)",
           "fs": KF0,
-          "frame": "heap_unchanged('Config._Config__keyfile', 'KeyFile._KeyFile__key', 'KeyFile._KeyFile__refcount', tree)",
+          "frame": "heap_unchanged('Config._Config__keyfile', 'Config._Config__default_keyfile', 'KeyFile._KeyFile__key', 'KeyFile._KeyFile__refcount', tree)",
           "stored-values-predate-the-call": 'forall("k:key", "old(implies(has(self._data, k), allocated(get(self._data, k))))")',
           "keys": 'forall("k:key", "iff(has(tree, k), has(fields, k) and pos(fields, k) < I and (has(self._data, k) or (truthy(virtual) and typeis(get(fields, k), \'ref:VirtualFieldMixin\'))) and not typeis(get(fields, k), \'ref:InstanceMethodFieldMixin\'))")', "sub": 'forall("k:key", "implies(has(tree, k) and typeis(fval(get(fields, k), self, k), \'ref:Config\'), tree_rel(get(tree, k), fval(get(fields, k), self, k), virtual, sensitive_mask))")', "masked": 'forall("k:key", "implies(has(tree, k) and not typeis(fval(get(fields, k), self, k), \'ref:Config\') and typeis(get(fields, k), \'ref:Field\') and get(fields, k).sensitive and sensitive_mask is not None and implies(typeis(get(fields, k), \'ref:VirtualFieldMixin\'), not typeis(fval(get(fields, k), self, k), \'ref:object\')), get(tree, k) == ite(not truthy(fval(get(fields, k), self, k)), None, ite(len(sensitive_mask) == 1, sensitive_mask * len(str(fval(get(fields, k), self, k))), sensitive_mask)))")', "plain": 'forall("k:key", "implies(has(tree, k) and not typeis(fval(get(fields, k), self, k), \'ref:Config\') and typeis(get(fields, k), \'ref:Field\') and not (typeis(get(fields, k), \'ref:Field\') and get(fields, k).sensitive and sensitive_mask is not None) and sensitive_mask is None, basic_rel(get(fields, k), self, fval(get(fields, k), self, k), get(tree, k)))")',
       }, 1: {
           "locals": "typeis(comp_result, 'ref:list') and fresh(comp_result)",
           "fs": KF0,
-          "frame": "heap_unchanged('Config._Config__keyfile', 'KeyFile._KeyFile__key', 'KeyFile._KeyFile__refcount', tree, comp_result)",
+          "frame": "heap_unchanged('Config._Config__keyfile', 'Config._Config__default_keyfile', 'KeyFile._KeyFile__key', 'KeyFile._KeyFile__refcount', tree, comp_result)",
       }})
     C("core:Field.to_basic", virtual=True, params={"cfg": "ref:Config", "value": "any"}, returns="any", modifies=KEYFILE_STATE,
       defines_ensures={"C02.encoding-of": "basic_rel(self, cfg, value, result)"},
-      ensures={"C03+C19.only-key-files-touched": KF0, "C13.configuration-untouched": "heap_unchanged('Config._Config__keyfile', 'KeyFile._KeyFile__key', 'KeyFile._KeyFile__refcount')"},
-      raises={"C03+C19.only-key-files-touched": KF0, "C13.configuration-untouched": "heap_unchanged('Config._Config__keyfile', 'KeyFile._KeyFile__key', 'KeyFile._KeyFile__refcount')"})
+      ensures={"C03+C19.only-key-files-touched": KF0, "C13.configuration-untouched": "heap_unchanged('Config._Config__keyfile', 'Config._Config__default_keyfile', 'KeyFile._KeyFile__key', 'KeyFile._KeyFile__refcount')"},
+      raises={"C03+C19.only-key-files-touched": KF0, "C13.configuration-untouched": "heap_unchanged('Config._Config__keyfile', 'Config._Config__default_keyfile', 'KeyFile._KeyFile__key', 'KeyFile._KeyFile__refcount')"})
     C("core:Field.to_python", virtual=True, params={"cfg": "ref:Config", "value": "any"}, returns="any", modifies=KEYFILE_STATE + ADOPT,
       ensures={"C03.only-key-files-touched": KF0,
-               "C06+C13.configuration-untouched": "heap_unchanged('Config._Config__keyfile', 'KeyFile._KeyFile__key', 'KeyFile._KeyFile__refcount', 'Config._parent', 'Config._key', 'Config._container')",
+               "C06+C13.configuration-untouched": "heap_unchanged('Config._Config__keyfile', 'Config._Config__default_keyfile', 'KeyFile._KeyFile__key', 'KeyFile._KeyFile__refcount', 'Config._parent', 'Config._key', 'Config._container')",
                "C02.none-stays-none": "implies(value is None and not typeis(self, 'ref:ListField|ref:DictField'), result is None)"},
       raises={"C03.only-key-files-touched": KF0,
-              "C06+C13.configuration-untouched": "heap_unchanged('Config._Config__keyfile', 'KeyFile._KeyFile__key', 'KeyFile._KeyFile__refcount', 'Config._parent', 'Config._key', 'Config._container')"})
+              "C06+C13.configuration-untouched": "heap_unchanged('Config._Config__keyfile', 'Config._Config__default_keyfile', 'KeyFile._KeyFile__key', 'KeyFile._KeyFile__refcount', 'Config._parent', 'Config._key', 'Config._container')"})
     KF_ONLY = "forall('p:str', 'implies(not is_keyfile_path(p), fs_cell_same(p))')"
     C("core:Config.dumps", params={"format": "str", "virtual": "any", "sensitive_mask": "opt:str", "kwargs": "ref:dict"}, returns="bytes",
       modifies=KEYFILE_STATE,
